@@ -76,7 +76,7 @@ def gen_action(rng, c, prof, kind):
     if a == "plan_append": return "plan.append %d %d" % (rng.randrange(n), d)
     if a == "plan_appendWith": return "plan.appendWith %d %d %d" % (rng.randrange(n), d, rng.randrange(256))
     if a == "plan_clear": return "plan.clear"
-    if a == "plan_removeAt": return "plan.removeAt %d" % rng.randrange(max(1, c["cap"] + 1))
+    if a == "plan_removeAt": return "plan.removeAt %d" % rng.randrange(max(1, cfgmod.eff_cap(c) + 1))
     raise AssertionError(a)
 
 def gen_tab(rng, c, prof, insts=("*",)):
@@ -191,7 +191,7 @@ def gen_ops(rng, c, prof):
         elif k == "plan_append": emit("plan.append %d %d %d" % (i, rng.randrange(n), d))
         elif k == "plan_appendWith": emit("plan.appendWith %d %d %d %d" % (i, rng.randrange(n), d, rng.randrange(256)))
         elif k == "plan_clear": emit("plan.clear %d" % i)
-        elif k == "plan_removeAt": emit("plan.removeAt %d %d" % (i, rng.randrange(c["cap"] + 1)))
+        elif k == "plan_removeAt": emit("plan.removeAt %d %d" % (i, rng.randrange(cfgmod.eff_cap(c) + 1)))
         elif k == "loadfrom":
             others = [j for j in live if j != i]
             if others: emit("loadfrom %d %d" % (i, rng.choice(others)))
